@@ -544,7 +544,7 @@ pub fn run_c19(tier: &str, seed: u64) -> i32 {
         id: "C19", level: "exploration", cases: if quick { 30_000 } else { 1_000_000 },
         rule: "back-off step sequences from the real client implementation for generated base / max / stability periods (zero, sub-millisecond, base>max, max<1s, years, Duration::MAX) and both jitter modes, compared with min(base'*2^k, max') in closed form; plus lifetime histories driven through the real state transitions with each connection lifetime bracketed by the harness' own clock readings (decisive only when the bracket lies entirely on one side of the stability period); non-trivial = a wait was compared; distinct = distinct (configuration, history) pairs".into(),
         assumptions: vec!["the client implementation reads Instant::now(); lifetimes are bracketed, samples whose bracket straddles the stability period are skipped and counted".into()],
-        gates: vec![("c19.waits_compared", if quick { 100_000 } else { 3_000_000 }), ("c19.resets_decisive", if quick { 200 } else { 5_000 }), ("c19.continuations_decisive", if quick { 200 } else { 5_000 })],
+        gates: vec![("c19.waits_compared", if quick { 100_000 } else { 3_000_000 }), ("c19.resets_decisive", if quick { 200 } else { 5_000 }), ("c19.continuations_decisive", if quick { 200 } else { 5_000 }), ("c19.pre_connack_failures", if quick { 200 } else { 5_000 })],
         budget_s: if quick { 900 } else { 3000 },
     };
     run_cases(plan, tier, seed, move |idx, r, l| {
@@ -631,6 +631,24 @@ pub fn run_c19(tier: &str, seed: u64) -> i32 {
             let mut buf: Vec<u8> = Vec::with_capacity(4096);
             let _ = catch_unwind(AssertUnwindSafe(|| client.handle_service(&mut buf)));
             let _ = catch_unwind(AssertUnwindSafe(|| client.handle_write_completion()));
+            if r.chance(1, 4) {
+                // the transport was established but the attempt dies before a successful CONNACK
+                // (EOF / error, or a failing CONNACK): no connection was established, so whatever
+                // time passes the sequence must continue
+                let failing = r.chance(1, 2);
+                if failing {
+                    let bad = rf::encode(&rf::Packet::Connack(rf::Connack { reason: 0x87, ..Default::default() }), true, &rf::Knobs::default());
+                    let _ = catch_unwind(AssertUnwindSafe(|| client.handle_incoming_bytes(&bad)));
+                }
+                if r.chance(1, 2) { std::thread::sleep(Duration::from_millis(60)); }
+                client.apply_connection_closed_error("lost before connack");
+                let r2 = catch_unwind(AssertUnwindSafe(|| client.transition_to_state(gv::ImplState::PendingReconnect)));
+                if !matches!(r2, Ok(Ok(()))) { break; }
+                l.count("c19.pre_connack_failures");
+                hist.push(format!("transport-up-no-connack(failing_connack={})", failing));
+                if !check_wait(&mut client, &mut k, l) { return; }
+                continue;
+            }
             let t0 = Instant::now();
             let r1 = catch_unwind(AssertUnwindSafe(|| client.handle_incoming_bytes(&connack)));
             let t1 = Instant::now();
